@@ -173,6 +173,15 @@ PENDING = {
 
 ALL = [f"C{i:02d}" for i in range(1, 21)]
 
+# rules added after the fifth seeded round (DESIGN.md §21); appended to the claim text of each property
+HISTORY_FREE = " (HISTORY-FREE) no routine of the modules this property is anchored in makes its result depend on earlier calls: a memo table (module-level container written at run time) is keyed by everything its value is computed from -- per facet: value / shape / dtype-and-device of an array -- no key component drops the values of a mapping, a value taken from a memo table or a functools cache is never modified in place, and no module global is rebound at run time (a cache the rule can prove consistent is accepted)."
+EXTRA = {
+    "C04": " (GUARD-EXACT) in cp_normalize / tucker_normalize / parafac2_normalise the scale that divides a factor and the scale absorbed into the weights / core are the same value or differ only by a guard where(<scale is exactly zero>, 1, scale); a threshold guard leaves a non-null column un-normalised while its norm is still absorbed.",
+    "C05": " (DIV-GUARDED) in the SVD methods of SVD_FUNS every division has a denominator that is strictly positive by construction (clipped / floored at a positive constant or machine epsilon, square roots and reshapes of such), so singular vectors obtained by dividing by computed singular values stay finite for exactly singular input.",
+    "C07": " (ACCEPT-EVALUATED) PARAFAC2's line-search step returns the model its error was evaluated on: between the evaluation and the return that hands back (model, error) no part of that model is written.",
+    "C14": " (INIT-AS-GIVEN) on the path initialize_cp / initialize_constrained_parafac / initialize_tucker take for a user-supplied decomposition, no factor is replaced by the output of a transforming routine (proximal operator, projection, SVD, random draw, clipping; absolute value outside the non-negative option) before it is returned.",
+}
+
 
 def main():
     base = json.load(open("/root/.vp/BASELINE.json"))
@@ -191,7 +200,7 @@ def main():
                 "engine": "tlsa",
                 "level_claimed": {
                     "category": "other",
-                    "text": "Static analysis (no execution). " + c["text"],
+                    "text": "Static analysis (no execution). " + c["text"] + EXTRA.get(pid, "") + ("" if pid == "C17" else HISTORY_FREE),
                     "design_ref": c["design"],
                 },
                 "level_note": c["note"],
